@@ -508,6 +508,7 @@ type FuncContract struct {
 	Line        int
 	NoOverflow  []string
 	Domain      []Clause
+	Writes      []Clause     // per-store assertions (Case = variable name)
 	Reveal      bool         // expand opaque spec functions of other packages in this function's VC
 	Findings    []Clause     // known-finding regions (Case = finding name)
 	Allocs      []*STypeExpr // for trusted / interface contracts: kinds the callee may allocate
@@ -694,6 +695,15 @@ func ParseContractFile(src, path string) (cf *ContractFile, err error) {
 				cur.Findings = append(cur.Findings, c)
 			case "case":
 				curCase = rest
+			case "writes":
+				// writes NAME: expr over k (key/index), v (stored value): checked at every store to the local map/slice NAME
+				idx := strings.Index(rest, ":")
+				if idx < 0 {
+					panic(fmt.Errorf("%s:%d: writes syntax: writes NAME: expr", path, l.line))
+				}
+				c := mk(strings.TrimSpace(rest[idx+1:]), l.line)
+				c.Case = strings.TrimSpace(rest[:idx])
+				cur.Writes = append(cur.Writes, c)
 			case "reveal":
 				cur.Reveal = true
 			case "pure":
